@@ -69,6 +69,10 @@ func EncodeCMPPContentAndSplit(ctx context.Context, content string, msgFmt datac
 	contents [][]byte, actualMsgFmt datacoding.CMPPDataCoding, err error,
 ) {
 	actualMsgFmt = msgFmt
+	if !datacoding.IsValidCMPPDataCoding(msgFmt) {
+		// GetCMPPCodec falls back to UCS2 for an unknown coding; report what is really used
+		actualMsgFmt = datacoding.CMPP_CODING_UCS2
+	}
 	var encodedData []byte
 	encoder := datacoding.GetCMPPCodec(msgFmt, content)
 	encodedData, err = encoder.Encode()
@@ -123,6 +127,10 @@ func EncodeSMPPContentAndSplit(ctx context.Context, content string, msgFmt datac
 	contents [][]byte, actualMsgFmt datacoding.SMPPDataCoding, err error,
 ) {
 	actualMsgFmt = msgFmt
+	if !datacoding.IsValidSMPPDataCoding(msgFmt) {
+		// GetSMPPCodec falls back to UCS2 for an unknown coding; report what is really used
+		actualMsgFmt = datacoding.SMPP_CODING_UCS2
+	}
 	if msgFmt == datacoding.SMPP_CODING_GSM7_PACKED {
 		// Fast path: If the content includes non-GSM7 encoding,
 		// there's no need to attempt again. Use UCS2 directly.
